@@ -338,7 +338,9 @@ Inductive t_mid := MidNone | MidTunnel | MidOther.
 (* boundary secrets: unrelated string, first character, all but the last character, all but the first, right+1 character,
    case flipped, last character changed, the right secret of ANOTHER mapping — all are simply "not the mapping's secret" *)
 Inductive t_secret := SNone | SRight | SWrong | SPrefix1 | SPrefixAll | SSuffix | SPlus | SCase | SOneChar | SOther.
-Inductive t_mstate := MActive | MRevoked | MExpired | MInactive | MMissing.
+(* MExp25s .. MExp1ms: ExpiresAt 25 s / 10 s / 2 s / 1 ms BEFORE the request (expired, however recently: no tolerance);
+   MSoon60s: ExpiresAt 60 s AFTER the request (still valid) *)
+Inductive t_mstate := MActive | MRevoked | MExpired | MInactive | MMissing | MExp25s | MExp10s | MExp2s | MExp1ms | MSoon60s.
 Inductive t_tstate := TNone | TWaiting | TServed | TRemote.
 Record cell := { ce_id : t_id; ce_mid : t_mid; ce_secret : t_secret; ce_resume : bool; ce_mstate : t_mstate; ce_tstate : t_tstate }.
 
@@ -353,7 +355,7 @@ Definition mk_mapping (l t : client) (k : key) (st : t_mstate) : option mapping 
   | MMissing => None
   | _ => Some {| m_listen := l; m_target := t; m_secret := k;
                  m_revoked := match st with MRevoked => true | _ => false end;
-                 m_expired := match st with MExpired => true | _ => false end;
+                 m_expired := match st with MExpired | MExp25s | MExp10s | MExp2s | MExp1ms => true | _ => false end;
                  m_active := match st with MInactive => false | _ => true end |}
   end.
 Definition cell_db (c : cell) : db :=
@@ -393,7 +395,7 @@ Definition cell_entitled (c : cell) : bool :=
 Definition all_ids := [IdNone; IdHalf; IdListen; IdTarget; IdStranger].
 Definition all_mids := [MidNone; MidTunnel; MidOther].
 Definition all_secrets := [SNone; SRight; SWrong; SPrefix1; SPrefixAll; SSuffix; SPlus; SCase; SOneChar; SOther].
-Definition all_mstates := [MActive; MRevoked; MExpired; MInactive; MMissing].
+Definition all_mstates := [MActive; MRevoked; MExpired; MInactive; MMissing; MExp25s; MExp10s; MExp2s; MExp1ms; MSoon60s].
 Definition all_tstates := [TNone; TWaiting; TServed; TRemote].
 Definition all_cells : list cell :=
   flat_map (fun i => flat_map (fun m => flat_map (fun s => flat_map (fun r => flat_map (fun ms =>
